@@ -144,6 +144,8 @@ type TCPConn struct {
 	rbuf          []byte
 	peerFin       bool
 	rst           bool
+	rstSeen       bool // the reset has been reported to the application (by a read or a write)
+	rstByPeer     bool // the peer reset the connection by itself (not in answer to data we sent to a closed socket)
 	readClosed    bool
 	writeClosed   bool
 	closed        bool
@@ -312,7 +314,7 @@ func (l *TCPListener) Close() error {
 		c.closed = true
 		c.ClosedAt = vrt.NowQuiet().Sub(vrt.Epoch)
 		c.SentRST = true
-		c.peer.rst = true
+		c.peer.rst, c.peer.rstByPeer = true, true
 	}
 	l.backlog = nil
 	vrt.Log("tcp.listener.close", l.addr.String(), l.Owner, 0)
@@ -401,6 +403,7 @@ func (c *TCPConn) Read(b []byte) (int, error) {
 		c.peer.flush()
 		return n, nil
 	case c.rst:
+		c.rstSeen = true
 		return 0, opErr("read", "tcp", c.local, c.remote, errReset)
 	default: // peerFin
 		return 0, io.EOF
@@ -438,6 +441,12 @@ func (c *TCPConn) Write(b []byte) (int, error) {
 		case c.writeClosed:
 			return total, opErr("write", "tcp", c.local, c.remote, errPipe)
 		case c.rst:
+			if !c.rstSeen && c.rstByPeer {
+				// the pending error of a reset sent by the peer is reported once, by whichever call
+				// comes first; afterwards the socket is just shut
+				c.rstSeen = true
+				return total, opErr("write", "tcp", c.local, c.remote, os.NewSyscallError("write", syscall.ECONNRESET))
+			}
 			return total, opErr("write", "tcp", c.local, c.remote, errPipe)
 		case p.closed:
 			// the segment leaves, the peer answers with RST (whatever the closed peer had still
@@ -502,7 +511,7 @@ func (c *TCPConn) Close() error {
 	c.ClosedAt = c.stamp()
 	if (len(c.rbuf) > 0 && !c.readClosed) || c.lingerZero {
 		c.SentRST = true
-		c.peer.rst = true
+		c.peer.rst, c.peer.rstByPeer = true, true
 		c.reset()
 		vrt.Log("tcp.rst", c.Name(), "close-with-unread-or-linger0", int64(len(c.rbuf)))
 	} else if !c.writeClosed {
@@ -524,6 +533,9 @@ func (c *TCPConn) CloseWrite() error {
 	if c.closed {
 		return opErr("close", "tcp", c.local, c.remote, net.ErrClosed)
 	}
+	if c.rst {
+		return opErr("close", "tcp", c.local, c.remote, os.NewSyscallError("shutdown", syscall.ENOTCONN))
+	}
 	if !c.writeClosed {
 		c.writeClosed = true
 		c.finQueued = true
@@ -541,6 +553,10 @@ func (c *TCPConn) CloseRead() error {
 	vrt.Yield("tcp.closeread")
 	if c.closed {
 		return opErr("close", "tcp", c.local, c.remote, net.ErrClosed)
+	}
+	if c.rst {
+		// shutdown(2) on a connection the peer has reset
+		return opErr("close", "tcp", c.local, c.remote, os.NewSyscallError("shutdown", syscall.ENOTCONN))
 	}
 	c.readClosed = true
 	c.rbuf = nil
